@@ -249,7 +249,11 @@ class Reporter:
             violations=len(self.violations),
             repo=repo_path(),
         )
-        path = os.path.join(EVIDENCE_DIR, f"{self.pid}.json")
+        evdir = EVIDENCE_DIR
+        if repo_path() != "/repo":  # runs against a scratch copy (VERIF_REPO) never overwrite the evidence of /repo itself
+            evdir = os.path.join(EVIDENCE_DIR, "scratch")
+            os.makedirs(evdir, exist_ok=True)
+        path = os.path.join(evdir, f"{self.pid}.json")
         with open(path, "w") as f:
             json.dump(ev, f, indent=1)
         validate_evidence(path)
